@@ -116,9 +116,9 @@ func checkC10(r *Run) {
 				return false
 			}
 			const O = "cipher/secp256k1-go/secp256k1-go2.TheCurve.Order.Int"
-			r.Check("C10-R4", rp+": accepted only with 0 < r < n", r.P.Pos(e.Ret.Pos()), has("0 < big.Int.Sign(local:sig.R.Int)") && has("big.Int.Cmp(local:sig.R.Int, "+O+") < 0"), "")
-			r.Check("C10-R4", rp+": accepted only with 0 < s < n", r.P.Pos(e.Ret.Pos()), has("0 < big.Int.Sign(local:sig.S.Int)") && has("big.Int.Cmp(local:sig.S.Int, "+O+") < 0"), "")
-			r.Check("C10-R4", rp+": accepted only with 64 signature bytes and a successful recovery", r.P.Pos(e.Ret.Pos()), has("len($0) == 64") && has("cipher/secp256k1-go/secp256k1-go2.Signature.Recover(local:sig, *)"), "")
+			r.Check("C10-R4", rp+": accepted only with 0 < r < n", r.P.Pos(e.Ret.Pos()), has("0 < big.Int.Sign(local:cipher/secp256k1-go/secp256k1-go2.Signature.R.Int)") && has("big.Int.Cmp(local:cipher/secp256k1-go/secp256k1-go2.Signature.R.Int, "+O+") < 0"), "")
+			r.Check("C10-R4", rp+": accepted only with 0 < s < n", r.P.Pos(e.Ret.Pos()), has("0 < big.Int.Sign(local:cipher/secp256k1-go/secp256k1-go2.Signature.S.Int)") && has("big.Int.Cmp(local:cipher/secp256k1-go/secp256k1-go2.Signature.S.Int, "+O+") < 0"), "")
+			r.Check("C10-R4", rp+": accepted only with 64 signature bytes and a successful recovery", r.P.Pos(e.Ret.Pos()), has("len($0) == 64") && has("cipher/secp256k1-go/secp256k1-go2.Signature.Recover(local:cipher/secp256k1-go/secp256k1-go2.Signature, *)"), "")
 		}
 		r.Check("C10-R4", rp+": acceptance exits", "", n == 1, "")
 		// nothing touches sig between parsing and the range tests
@@ -131,7 +131,7 @@ func checkC10(r *Run) {
 				}
 				recv := ff.Term(ci.Common().Args[0])
 				nm := calleeName(ci.Common())
-				if (strings.HasPrefix(recv, "local:sig.R") || strings.HasPrefix(recv, "local:sig.S")) && nm != "big.Int.Sign" && nm != "big.Int.Cmp" {
+				if (strings.HasPrefix(recv, "local:cipher/secp256k1-go/secp256k1-go2.Signature.R") || strings.HasPrefix(recv, "local:cipher/secp256k1-go/secp256k1-go2.Signature.S")) && nm != "big.Int.Sign" && nm != "big.Int.Cmp" {
 					r.Check("C10-R4", rp+": r/s are only compared, never rewritten, before recovery", r.P.Pos(ci.Pos()), false, nm+"("+recv+", …)")
 				}
 			}
